@@ -22,6 +22,7 @@ import ASV.Proofs.LocString
 import ASV.Proofs.LocExtend
 import ASV.Proofs.LocConnectRing
 import ASV.Proofs.LocOffsetArea
+import ASV.Proofs.LocConnectRingCover
 namespace ASV.C04
 open ASV
 
@@ -133,6 +134,24 @@ theorem connect_ring_two (a b : Part) (L : Int) (ha : a.OK L) (hb : b.OK L) (hL 
       (2 * (L - max (lineGapSigned a b) (originGap a b L)) < L →
         r.len = L - max (lineGapSigned a b) (originGap a b L)) :=
   connect_two_ring a b L ha hb hL
+
+/-- `RingIn L l`: `l` is a single non-empty part inside `[0, L]` (a simple location or a one-part
+    compound, any strand) or an origin-spanning span `[x, L) + [0, y)` with `0 < y ≤ x < L`
+    (`areaTwo x y L s` for any single strand `s`, or the reverse-strand part order `areaTwoRev`).
+
+    Connecting ANY non-empty list of such locations on a ring of length `L > 0` succeeds (no
+    ValueError, no failed assertion, no unbounded recursion), the result covers every base of every
+    input, and it is a well-formed span: one part inside the record, or two parts meeting at the
+    origin. -/
+theorem connect_ring_covers_wf (ls : List Loc) (L : Int) (hne : ls ≠ []) (hL : 0 < L) (hin : ∀ l ∈ ls, RingIn L l) :
+    ∃ r, connect ls (some L) = .ok r ∧
+      (∀ l ∈ ls, ∀ i, l.mem i = true → r.mem i = true) ∧
+      areaWF L L r = true := by
+  refine ⟨_, connect_ring_closed ls L hne hL hin, ?_, ?_⟩
+  · intro l hl i hi
+    exact connR_covers _ L hL (toR_ok L hL ls hin) (toR l) (List.mem_map.2 ⟨l, hl, rfl⟩) i
+      ((toR_spec L hL l (hin l hl)).2.2.2 i hi)
+  · exact connR_wf _ L hL (by simpa using hne) (toR_ok L hL ls hin)
 
 /-! ### shifting by an offset (ring) -/
 
